@@ -54,11 +54,9 @@ def replay(ctx, idx, beh):
             shutil.rmtree(os.path.join(root, "plz-out"), ignore_errors=True)
             trace.append("deleteOut")
         else:
-            try:
-                p = subprocess.run([vlib.build_plz(), "-p", "-v", "1", "build", "//p:t2"], cwd=root, env=env, stdout=subprocess.PIPE,
-                                   stderr=subprocess.STDOUT, timeout=120, text=True, errors="replace")
-            except subprocess.TimeoutExpired:
-                raise vlib.Infra("plz build timed out in a cache-stack history")
+            rc, pout, dump = vlib.run_plz([vlib.build_plz(), "-p", "-v", "1", "build", "//p:t2"], root, env, 120)
+            if dump:
+                raise vlib.Infra("plz build timed out in a cache-stack history: %s\n%s" % (trace, pout[-1500:]))
             builds += 1
             got = {}
             for o in ("t1.out", "t2.out"):
@@ -67,9 +65,9 @@ def replay(ctx, idx, beh):
                 except OSError:
                     got[o] = "<missing>"
             want = "content %s" % st["expect"]
-            trace.append("build -> rc=%d %s" % (p.returncode, json.dumps(got, sort_keys=True)))
-            if p.returncode != 0:
-                raise vlib.Infra("plz build failed in a cache-stack history: %s" % p.stdout[-400:])
+            trace.append("build -> rc=%d %s" % (rc, json.dumps(got, sort_keys=True)))
+            if rc != 0:
+                raise vlib.Infra("plz build failed in a cache-stack history: %s" % pout[-400:])
             if any(v != want for v in got.values()):
                 viols.append(("C02 cache-stack build-output-differs-from-clean-build", dict(layers=True, behaviour=beh, trace=list(trace), want=want, got=got)))
                 break
